@@ -22,7 +22,10 @@ SCRATCH = os.environ.get('VERIF_SCRATCH', '/var/tmp/desper-verif')
 NAMES = ['a', 'b', 'a.txt', 'a.png', 'b.txt', 'c', 'd.e.txt', 'sub', 'sub.d',
          'empty', 'b.png', 'e.TXT', 'a.json', 'f.tar.gz', 'sub2',
          # legal names that mean something to glob
-         'a[1]', 'x*y', 'q?.txt', '[ab]', 'a1']
+         'a[1]', 'x*y', 'q?.txt', '[ab]', 'a1',
+         # decomposed and precomposed spellings of one name, upper-case
+         # extensions
+         'e\u0301.txt', '\u00e9.txt', 'a.PNG', 'B.Txt']
 MAGIC_DIRS = ('a[1]', 'x*y', '[ab]')
 _counter = [0]
 
